@@ -6,6 +6,7 @@ package main
 import (
 	"fmt"
 	"go/token"
+	"sort"
 	"strings"
 
 	"golang.org/x/tools/go/ssa"
@@ -728,6 +729,8 @@ func checkC07(c *Ctx) Meta {
 	_ = nRead
 
 	checkFreshWindow(c, "C07-FRESH")
+	c.Rule("C07-SIBLING", "the pre-plot pass places a value in map A by the same mapping (comparison with half, doubled / flipped-doubled-plus-one) that map A's own accessors use", 1)
+	checkSlotMappingSiblings(c, "C07-SIBLING")
 	// FORWARD: capacity.getProof / miner.getValidProofs
 	if f := c.MustFn("C07-FORWARD", "poc/engine/spacekeeper/capacity", "(*SpaceKeeper).getProof"); f != nil {
 		checkGetProofForward(c, f, "capacity")
@@ -1000,5 +1003,141 @@ func checkStopReturns(c *Ctx, rule string) {
 				}
 			})
 		}
+	}
+}
+
+// ---- sibling agreement of the map-A slot mapping (writer: prePlotWork; readers: HashMapA.Get/Set)
+
+func exprStr(v ssa.Value, depth int) string {
+	if depth > 8 {
+		return "…"
+	}
+	switch x := v.(type) {
+	case *ssa.Const:
+		if x.Value == nil {
+			return "nil"
+		}
+		return x.Value.ExactString()
+	case *ssa.Convert:
+		return exprStr(x.X, depth+1)
+	case *ssa.ChangeType:
+		return exprStr(x.X, depth+1)
+	case *ssa.BinOp:
+		if x.Op == token.QUO {
+			if k, ok := x.Y.(*ssa.Const); ok && k.Value != nil && k.Value.ExactString() == "2" {
+				if backSlice(x.X).hasField(tHashMap, "volume") {
+					return "half"
+				}
+			}
+		}
+		return "(" + exprStr(x.X, depth+1) + " " + x.Op.String() + " " + exprStr(x.Y, depth+1) + ")"
+	case *ssa.Call:
+		if strings.HasSuffix(calleeID(x), "pocutil.FlipValue") {
+			return "flip(" + exprStr(x.Call.Args[0], depth+1) + ")"
+		}
+		return "v"
+	case *ssa.UnOp:
+		if _, f, _, ok := fieldOfValue(x); ok {
+			switch f {
+			case "half":
+				return "half"
+			case "bl":
+				return "bl"
+			}
+		}
+		if x.Op == token.MUL {
+			if c := cellOf(x.X); c != nil {
+				// a local: single reaching definition chain
+				s := ""
+				n := 0
+				valueOrigins(x.Parent(), x, func(root ssa.Value) {
+					n++
+					if root != ssa.Value(x) {
+						s = exprStr(root, depth+1)
+					}
+				})
+				if n == 1 && s != "" {
+					return s
+				}
+			}
+		}
+		return "v"
+	case *ssa.Phi:
+		return "v"
+	case *ssa.Parameter:
+		return "v"
+	}
+	return "v"
+}
+
+// slotMapping extracts "cond ? then : else" of the A-table slot mapping from fn.
+func slotMapping(fn *ssa.Function) string {
+	var out []string
+	for _, f := range withClosures(fn) {
+		allInstrs(f, func(in ssa.Instruction) {
+			bo, ok := in.(*ssa.BinOp)
+			if !ok {
+				return
+			}
+			switch bo.Op {
+			case token.LSS, token.LEQ, token.GTR, token.GEQ:
+			default:
+				return
+			}
+			l, r := exprStr(bo.X, 0), exprStr(bo.Y, 0)
+			if !(l == "v" && r == "half") && !(l == "half" && r == "v") {
+				return
+			}
+			tests := boolTestsOf(f, bo)
+			if len(tests) == 0 {
+				return
+			}
+			t := tests[0]
+			// the mapped values: stores / phi inputs computed in the two successor blocks
+			branch := func(b *ssa.BasicBlock) string {
+				var es []string
+				for _, i2 := range b.Instrs {
+					if v, ok := i2.(*ssa.BinOp); ok {
+						// outermost arithmetic expressions of the block
+						used := false
+						if refs := v.Referrers(); refs != nil {
+							for _, u := range *refs {
+								if ub, ok := u.(*ssa.BinOp); ok && ub.Block() == b {
+									used = true
+								}
+							}
+						}
+						if !used {
+							es = append(es, exprStr(v, 0))
+						}
+					}
+				}
+				sort.Strings(es)
+				return strings.Join(es, ";")
+			}
+			out = append(out, fmt.Sprintf("%s %s %s ? %s : %s", l, bo.Op, r, branch(t.TrueSucc), branch(t.FalseSucc)))
+		})
+	}
+	sort.Strings(out)
+	return strings.Join(out, " | ")
+}
+
+func checkSlotMappingSiblings(c *Ctx, rule string) {
+	w := c.MustFn(rule, "poc/engine/massdb/massdb.v1", "(*MassDBV1).prePlotWork")
+	g := c.MustFn(rule, "poc/engine/massdb/massdb.v1", "(*HashMapA).Get")
+	s := c.MustFn(rule, "poc/engine/massdb/massdb.v1", "(*HashMapA).Set")
+	if w == nil || g == nil || s == nil {
+		return
+	}
+	mw, mg, ms := slotMapping(w), slotMapping(g), slotMapping(s)
+	key := "mapA-slot-mapping:writer-equals-readers"
+	if mw == "" || mg == "" {
+		c.Bad(rule, key, c.Pos(w.Pos()), "reason=anchor-missing: slot mapping (value vs half) not found in prePlotWork / HashMapA.Get")
+		return
+	}
+	if mw == mg && mg == ms {
+		c.OK(rule, key, c.Pos(w.Pos()), "prePlotWork, HashMapA.Get and HashMapA.Set map a value to its slot identically: "+mw)
+	} else {
+		c.Bad(rule, key, c.Pos(w.Pos()), "the pre-plot pass places values in map A differently from how map A is addressed by its readers: writer {"+mw+"} vs Get {"+mg+"} / Set {"+ms+"} — the boundary value lands in a slot no reader looks at, so its pair (and the proofs built from it) is missing from the finished table")
 	}
 }
